@@ -109,8 +109,10 @@ func (ci *c14Interp) cleanup() { os.RemoveAll(ci.dir) }
 
 // run executes one call. With ci.in == nil it uses interp.ExecProgram (only for Entry == "exec").
 func (ci *c14Interp) run(r c14Run) (res c14Out) {
-	var out bytes.Buffer
-	var errOut c14LockedBuf // child processes write to Config.Error from their own goroutine (os/exec), hence the lock
+	// child processes write to Config.Output / Config.Error from goroutines of os/exec, hence locked writers (an unlocked
+	// bytes.Buffer loses data when `print | "cmd"` is open while the program prints: recorded finding F25, property C13)
+	var out c14LockedBuf
+	var errOut c14LockedBuf
 	var cfg *interp.Config
 	usesFiles := false
 	for _, e := range r.Env {
@@ -243,6 +245,7 @@ function runops(script,    n, ops, i, w, k) {
     else if (k == "nr") NR = w[2] + 0
     else if (k == "rec") $0 = w[2]
     else if (k == "gl") getline
+    else if (k == "gd") getline g2 < "-"
     else if (k == "m") match(sprintf("%" w[2] "s", "b"), /b/)
     else if (k == "rx") print "rx " (("k" w[2]) ~ ("^k" w[2] "$"))
     else if (k == "sr") srand(w[2] + 0)
@@ -259,6 +262,7 @@ function runops(script,    n, ops, i, w, k) {
   }
 }
 BEGIN { runops(ENVIRON["B"]) }
+/^s/, /^e/ { print "R " NR }
 { runops(ENVIRON["M"]) }
 END { runops(ENVIRON["E"]) }
 `
@@ -279,6 +283,12 @@ var c14Progs = []string{
 	`BEGIN { print ARGC, ARGV[1], ARGV[2], length(ARGV); SUBSEP = ":"; a[1,2] = 3; for (k in a) print k; print length(u), u1 == 0, u1 == "" } { t[$1]; if (NR == 1) RS = ";" } END { print length(t), x, NR; print FNR, FILENAME }`,
 	`BEGIN { if (ENVIRON["K"] == "err") { getline; $5 = "e"; NF = 7; while (i++ < 3) for (k in ENVIRON) if (i == 2) print substr("x", 1, 1/zero) } } { $2 = "c"; print; print NF } END { print $0, NF, NR }`,
 	`BEGIN { printf "%s", "" > "/dev/stderr"; if (ENVIRON["K"] == "mode") { RS = ""; FS = "x" } } { n += NF; last = $NF } END { print n, last, RT == "\n", length(RT) }`,
+	// streams: standard input read through "-" (its own scanner in the stream table) before, and after, the main loop
+	`BEGIN { if (ENVIRON["K"] != "mode") { if ((getline l < "-") > 0) print "first", l; if (ENVIRON["K"] == "err") x = 1/zero } } { print "main", $0; if ($1 == "boom") exit 2 } END { n = 0; while ((getline l < "-") > 0) { n++; last = l }; print n, NR, last }`,
+	// streams left open: an input file read partly, output files written with > and >> and never closed
+	`BEGIN { d = ENVIRON["D"]; f = d "/in.txt"; k = ENVIRON["K"]; printf "%s1\n%s2\n%s3\n", k, k, k > f; close(f); getline a < f; print "got", a; print "o1" NR > (d "/out1"); print "o2" k >> (d "/out2"); if (k == "err") x = 1/zero; if (k == "cancel") exit 5 } { getline b < f; print "rec", b; print $0 > (d "/out1") } END { print (getline c < f), c }`,
+	// range patterns (two rules, one combined with another condition); inputs may end inside a range
+	`/start/,/stop/ { print "r1", NR, $0 } NR > 1 && /mid|x/, /after|^3/ { print "r2", $0 } $1 == "boom" { exit 3 } $1 == "deep" { y = 1/zero } $1 == "q" { if (cancel()) while (1) i++ } END { print NR }`,
 	// input mode switched at run time after the main scanner exists (G14-1, repaired in d5c3fe1: csvFields of an earlier run)
 	`BEGIN { if (ENVIRON["K"] == "mode") { getline line; INPUTMODE = "csv" } } $1 == "boom" { INPUTMODE = "tsv" } { print NF, $1 } END { print INPUTMODE "|" NR }`,
 }
@@ -286,10 +296,12 @@ var c14Progs = []string{
 // which programs touch the file system / run commands (kept rarer: slower)
 // program 9 runs commands: what a child process does with the shared stdin and when its output arrives is scheduling, not
 // interpreter state, so it is only used in the serial corpus (empty stdin), never in the parallel random histories
-var c14ProgWeight = []int{6, 8, 5, 6, 4, 1, 5, 6, 8, 0, 1, 5, 5, 4, 8}
+var c14ProgWeight = []int{6, 8, 5, 6, 4, 1, 5, 6, 8, 0, 1, 5, 5, 4, 8, 2, 8, 8}
 
 var c14Inputs = []string{"", "1 2\n3 4\n", "a,b\n1,2\nboom,x\n", "deep 1\nq r s\n", "b,a\n\"x y\",2\n", "5\n6\n7\n",
-	"start\nmid x\nstop\nafter\n", "boom\n1\n", "a;b;c\n\nd\n\n\ne x f\n"}
+	"start\nmid x\nstop\nafter\n", "boom\n1\n", "a;b;c\n\nd\n\n\ne x f\n",
+	// inputs that end inside a range, or have records before the first start
+	"start\nmid x\n", "x\nstart\n", "after\nq\nstart\nboom\nzz\n", "s1\nstart\ndeep 1\n", "old1\nold2\nold3\n"}
 
 func c14GenRun(c *vh.Ctx, prog int) c14Run {
 	r := c.Rng
@@ -444,8 +456,10 @@ func c14GenOp(c *vh.Ctx, live bool, where string) string {
 			return "nr:" + c14Pick(c, "5", "9")
 		case 9:
 			return "rec:" + c14Pick(c, "q", "a,b", "x,y,z")
-		case 10, 11:
+		case 10:
 			return "gl"
+		case 11:
+			return c14Pick(c, "gl", "gd", "gd")
 		case 12:
 			return "m:" + c14Pick(c, "2", "3")
 		case 13:
@@ -474,7 +488,9 @@ func c14GenOp(c *vh.Ctx, live bool, where string) string {
 	}
 }
 
-var c14OpsInputs = [][]string{{}, {"a,b"}, {"a,b", "1,2"}, {"b,a", "x y,2", "3,4"}, {"q r s", "t"}, {"1 2", "3,4", "5"}}
+var c14OpsInputs = [][]string{{}, {"a,b"}, {"a,b", "1,2"}, {"b,a", "x y,2", "3,4"}, {"q r s", "t"}, {"1 2", "3,4", "5"},
+	// the range rule `/^s/, /^e/`: inputs that end inside the range, and inputs with records before the first start
+	{"s", "x", "e", "y"}, {"x", "s", "y"}, {"s"}, {"e", "s,1", "q r"}, {"y", "z", "s 2", "e"}}
 
 func c14GenOps(c *vh.Ctx, probe bool) c14OpsCfg {
 	r := c.Rng
@@ -643,6 +659,20 @@ func runC14(c *vh.Ctx) {
 		c14Case{Prog: c14Progs[9], History: []c14Run{cmdRun("exec", "a", false), cmdRun("live", "b", true)}, Reset: true, Probe: cmdRun("exec", "c", false)},
 		c14Case{Prog: c14Progs[9], History: []c14Run{cmdRun("exec", "a", true)}, Reset: false, Probe: cmdRun("bg", "c", false)},
 	)
+	// command streams left open by an aborted run (serial, empty stdin: a child shares the Stdin reader)
+	cmdStreams := `BEGIN { "echo a; echo b" | getline x; print x; print "p" | "cat"; if (ENVIRON["K"] == "err") y = 1/zero; "echo a; echo b" | getline x; print x }`
+	corpus = append(corpus,
+		c14Case{Prog: cmdStreams, History: []c14Run{cmdRun("exec", "err", false)}, Reset: true, Probe: cmdRun("exec", "", false)},
+		c14Case{Prog: cmdStreams, History: []c14Run{cmdRun("live", "err", false), cmdRun("exec", "", false)}, Reset: false, Probe: cmdRun("bg", "", false)},
+		// C14-m1 class: the "-" scanner of an earlier run must not feed a later run
+		c14Case{Prog: `{ print "main", $0 } END { n = 0; while ((getline l < "-") > 0) print ++n ": " l }`,
+			History: []c14Run{{Entry: "exec", Input: ""}}, Reset: true, Probe: plain},
+		c14Case{Prog: `BEGIN { while ((getline l < "-") > 0) { print ++n ": " l; if (n == 2) exit } }`,
+			History: []c14Run{{Entry: "exec", Input: "old1\nold2\nold3\nold4\n"}}, Reset: true, Probe: c14Run{Entry: "exec", Input: "new1\nnew2\n"}},
+		// C14-m3 class: a run that ends inside a range must not leave the next run inside it
+		c14Case{Prog: `/start/,/stop/ { print "in", $0 }`, History: []c14Run{{Entry: "exec", Input: "start\nx\n"}}, Reset: true,
+			Probe: c14Run{Entry: "exec", Input: "before\nstart\ny\nstop\nafter\n"}},
+	)
 	type job struct {
 		cs   c14Case
 		kind string
@@ -668,7 +698,7 @@ func runC14(c *vh.Ctx) {
 		}
 		return 0
 	}
-	for i := c.N(2500, 120000); i > 0; i-- {
+	for i := c.N(6000, 120000); i > 0; i-- {
 		p := pickProg()
 		cs := c14Case{Prog: c14Progs[p], Reset: true}
 		for k := c.Rng.Intn(5); k > 0; k-- {
@@ -678,7 +708,7 @@ func runC14(c *vh.Ctx) {
 		jobs = append(jobs, job{cs, fmt.Sprintf("hand:%02d", p)})
 	}
 	// ---- O1 on the operation-script program; O2: no reset, variable-free probes ----
-	for i := c.N(1500, 60000); i > 0; i-- {
+	for i := c.N(3000, 60000); i > 0; i-- {
 		cs := c14Case{Prog: c14OpsProg, Reset: c.Rng.Intn(2) == 0}
 		for k := c.Rng.Intn(4); k > 0; k-- {
 			cs.History = append(cs.History, c14GenOps(c, false).run())
@@ -690,7 +720,7 @@ func runC14(c *vh.Ctx) {
 			vf := func(n int) []string {
 				var ops []string
 				for ; n > 0; n-- {
-					ops = append(ops, c14Pick(c, "pp", "pp", "gl", "nm:a", "nm:b", "m:2", "nr:5", "rec:q", "x:3", "err"))
+					ops = append(ops, c14Pick(c, "pp", "pp", "gl", "gd", "nm:a", "nm:b", "m:2", "nr:5", "rec:q", "x:3", "err"))
 				}
 				return ops
 			}
@@ -756,7 +786,7 @@ func runC14(c *vh.Ctx) {
 
 	// ---- correspondence with the Lean model: histories of the operation-script program ----
 	if c.HasLean() {
-		nCorr := c.N(2000, 60000)
+		nCorr := c.N(3000, 60000)
 		type corr struct {
 			calls []string     // RV | RR | X
 			cfgs  []c14OpsCfg  // for X calls
